@@ -1,6 +1,7 @@
 package main
 
 import (
+	"sort"
 	"math/rand"
 	"bytes"
 	"fmt"
@@ -191,7 +192,29 @@ func genC20pass(r *Run) int {
 	// ---- standalone DHCPv4 option values built by the exported constructors
 	for i := 0; i < r.N(150, 2500); i++ {
 		codes := []dhcpv4.OptionCode{}
-		for _, c := range r.Bytes(1 + r.Rng.Intn(6)) {
+		raw := r.Bytes(1 + r.Rng.Intn(6))
+		// list shapes a helper may treat specially: already sorted, sorted with a repeated code in the middle,
+		// descending, all equal, ascending except the last element
+		switch i % 7 {
+		case 1, 2:
+			sort.Slice(raw, func(a, b int) bool { return raw[a] < raw[b] })
+			if i%7 == 2 && len(raw) >= 3 {
+				raw[1] = raw[0] // sorted, with a duplicate that is followed by other codes
+				sort.Slice(raw, func(a, b int) bool { return raw[a] < raw[b] })
+			}
+		case 3:
+			sort.Slice(raw, func(a, b int) bool { return raw[a] > raw[b] })
+		case 4:
+			for k := range raw {
+				raw[k] = raw[0]
+			}
+		case 5:
+			sort.Slice(raw, func(a, b int) bool { return raw[a] < raw[b] })
+			if len(raw) >= 2 {
+				raw[len(raw)-1] = raw[0] / 2
+			}
+		}
+		for _, c := range raw {
 			l := dhcpv4.OptionCodeList{}
 			l.FromBytes([]byte{c})
 			codes = append(codes, l...)
